@@ -25,6 +25,12 @@ META = {
         text="Kernel-checked: during a successful (and a failing) reload an address present in both configurations is bound at every intermediate step; both generations accept a key present in both. Observed on the real server: no refused dial, no connection/datagram handled by zero or two generations, no unauthenticated retained client, relays complete.",
         note="Partial for kernel accept-queue behaviour and timing (observed only). Exactly-one delivery among handles is C12.",
     ),
+    "C12": dict(
+        engine="E5 listeners",
+        technique="Lean 4 invariant proofs over a labelled transition system of a shared listener for EVERY event sequence (acquire, arrival, accept/read call, hand-over to a chosen blocked handle, close): conservation (each item in exactly one of queued/delivered/dropped), no double delivery, delivery only to open blocked handles, drops only at the last close, close semantics, closed handles stay closed, socket bound iff a handle is open; refinement check of the real ListenerManager against the model on real sockets with concurrent operations",
+        text="Kernel-checked for all interleavings: exactly-once delivery, nothing lost while a handle is open, close unblocks and never disturbs others, every later call on a closed handle fails, last close releases the socket and leaves nothing queued or blocked; hand-over is always possible when an item is queued and a handle is blocked.",
+        note="Partial for liveness in real time (the campaign's oracle demands hand-over within 20 ms) and for kernel behaviour (RST/FIN of undelivered connections), observed only. Trusted: Lean kernel, hand model, harness linearisation.",
+    ),
     "C17": dict(
         engine="E7 metrics",
         technique="Lean 4 refinement proof: the tunnel-time bookkeeping model (reference counts, period restart on scrape, report on last close) against an independent per-client specification (time accrues exactly while depth>0), by induction over arbitrary op histories with a non-decreasing clock; differential correspondence with the real Prometheus collectors under a stubbed clock",
